@@ -14,6 +14,7 @@ re-slice outside `[0, len)` is the outcome `.panic`.  All theorems quantify over
 import Mqtt.Proofs.CodecWire
 import Mqtt.Proofs.CodecSpecDecode
 import Mqtt.Proofs.CodecErrCount
+import Mqtt.Proofs.CodecWireV
 import Mqtt.Proofs.XlateVarint
 import Mqtt.Proofs.XlateHeader
 
@@ -96,6 +97,17 @@ theorem C04_decode_agrees_with_reference (t : Nat) (bs : Bytes) (p : Wire.Packet
   obtain ⟨d, hd, hdn, habs⟩ := accepts_wf p hwf (bs.drop n)
   rw [← hbs, ht] at hd
   exact ⟨d, hd, by rw [hdn, hn], habs⟩
+
+/-- `decode_accepts_wf` for **every permitted form of the remaining length** (section 2.2.3 allows one to four
+bytes and does not require the shortest form; `Wire.Encodes bs p`): the packet is accepted, exactly its bytes are
+consumed, and the decoded message stands for exactly `p`. -/
+theorem C04_decode_accepts_wf_any_length (p : Wire.Packet) (hwf : Wire.WF p) (bs : Bytes) (h : Wire.Encodes bs p)
+    (rest : Bytes) :
+    ∃ d, decodeNew p.type (bs ++ rest) = .ok d ∧ d.n = bs.length ∧ absMsg d.msg = p :=
+  accepts_encodes p hwf bs h rest
+
+/-- PUBACK 1 with the remaining length 2 written `82 00` -/
+example : Wire.Encodes [0x40, 0x82, 0x00, 0x00, 0x01] (.puback 1) := ⟨[0x82, 0x00], by decide, rfl⟩
 
 /-! ### Non-vacuity: the decoders do succeed and do fail. -/
 
